@@ -45,8 +45,26 @@ impl Probe {
 			.stdin(Stdio::piped())
 			.stdout(Stdio::piped())
 			.stderr(Stdio::piped());
+		let mut fsize: Option<u64> = None;
 		for (k, v) in env {
+			if *k == "VERIF_FSIZE" {
+				// not a variable of the child: a limit on the size of the files it writes (RLIMIT_FSIZE, SIGXFSZ ignored, so that a
+				// write beyond it fails with EFBIG the way a full disk fails with ENOSPC)
+				fsize = v.parse().ok();
+				continue;
+			}
 			cmd.env(k, v);
+		}
+		if let Some(n) = fsize {
+			use std::os::unix::process::CommandExt;
+			unsafe {
+				cmd.pre_exec(move || {
+					let l = libc::rlimit { rlim_cur: n, rlim_max: libc::RLIM_INFINITY };
+					libc::setrlimit(libc::RLIMIT_FSIZE, &l);
+					libc::signal(libc::SIGXFSZ, libc::SIG_IGN);
+					Ok(())
+				});
+			}
 		}
 		if let Some(d) = cwd {
 			cmd.current_dir(d);
